@@ -1,5 +1,5 @@
 use crate::sync::{Condvar, Mutex};
-use crate::tree_store::TransactionalMemory;
+use crate::tree_store::{BtreeHeader, TransactionalMemory};
 use crate::{Key, Result, Savepoint, TypeName, Value};
 use alloc::collections::BTreeSet;
 use alloc::collections::btree_map::BTreeMap;
@@ -316,17 +316,27 @@ impl TransactionTracker {
         &self,
         mem: &TransactionalMemory,
     ) -> Result<TransactionId> {
+        Ok(self.register_read_transaction_with_root(mem)?.0)
+    }
+
+    // Registers a read of the last committed transaction and returns its data root, which
+    // the reader must use: a root read later could belong to a newer commit than the id
+    // registered here
+    pub(crate) fn register_read_transaction_with_root(
+        &self,
+        mem: &TransactionalMemory,
+    ) -> Result<(TransactionId, Option<BtreeHeader>)> {
         #[cfg(redb_verif)]
         crate::verif::pause("read.before_register");
         let mut state = self.state.lock()?;
-        let id = mem.get_last_committed_transaction_id()?;
+        let (id, root) = mem.get_last_committed_transaction_id_and_data_root()?;
         state
             .live_read_transactions
             .entry(id)
             .and_modify(|x| *x += 1)
             .or_insert(1);
 
-        Ok(id)
+        Ok((id, root))
     }
 
     pub(crate) fn deallocate_read_transaction(&self, id: TransactionId) {
